@@ -47,8 +47,49 @@ def scan_statics():
     return statics, iters
 
 
+def cli_histories(res):
+    """the files a run of the tool leaves do not depend on earlier runs: a long image first, then a short one to the same names"""
+    import shutil
+    import subprocess
+    from . import c18
+    binary, env = c18.build_bin()
+    work = os.path.join(C.BUILD, "work", "c17cli-%d" % os.getpid())
+    shutil.rmtree(work, ignore_errors=True)
+    progs = {"long": " nop\n" * 300 + ".eseg\n .db " + ", ".join(str(i % 256) for i in range(200)) + "\n", "short": " ret\n.eseg\n .db 1\n",
+             "mid": " nop\n" * 20 + ".eseg\n .db 1, 2, 3, 4, 5, 6, 7, 8, 9, 10, 11, 12, 13, 14, 15, 16, 17\n"}
+    n = 0
+    for order in (["long", "short"], ["long", "mid", "short"], ["short", "long", "short"], ["mid", "mid"]):
+        for given in (False, True):
+            d = os.path.join(work, "h%d" % n)
+            n += 1
+            os.makedirs(d)
+            for k, text in progs.items():
+                open(os.path.join(d, k + ".asm"), "w").write(text)
+            outs = [os.path.join(d, "o.hex"), os.path.join(d, "e.hex")]
+            last = None
+            for k in order:
+                # with default names every program writes next to ITS source: to share the files the source is copied to one name
+                shutil.copy(os.path.join(d, k + ".asm"), os.path.join(d, "cur.asm"))
+                args = [binary, "-s", os.path.join(d, "cur.asm")] + (["-o", outs[0], "-e", outs[1]] if given else [])
+                subprocess.run(args, cwd=d, env=env, stdout=subprocess.PIPE, stderr=subprocess.STDOUT, timeout=60)
+                last = k
+            got = [open(p, "rb").read() if os.path.exists(p) else None for p in (outs if given else [os.path.join(d, "cur.hex"), os.path.join(d, "cur.eep.hex")])]
+            f = os.path.join(work, "fresh%d" % n)
+            os.makedirs(f)
+            shutil.copy(os.path.join(d, last + ".asm"), os.path.join(f, "cur.asm"))
+            subprocess.run([binary, "-s", os.path.join(f, "cur.asm")], cwd=f, env=env, stdout=subprocess.PIPE, stderr=subprocess.STDOUT, timeout=60)
+            want = [open(os.path.join(f, x), "rb").read() if os.path.exists(os.path.join(f, x)) else None for x in ("cur.hex", "cur.eep.hex")]
+            res.count(("cli-history", tuple(order), given), nontrivial=True)
+            if got != want:
+                P.fail(res, "avra-rs binary, runs in a row", "programs %s to the same output names (%s)" % (order, "-o/-e" if given else "default names"),
+                       "the files a run on an empty directory leaves for %r" % last, "different files (lengths %s vs %s)" % ([len(x or b"") for x in got], [len(x or b"") for x in want]),
+                       "cli-history")
+    shutil.rmtree(work, ignore_errors=True)
+
+
 def run(res):
     vh, exe = P.base(res, PROP)
+    cli_histories(res)
     statics, iters = scan_statics()
     res.oblige("source scan: process-global state = the immutable DEVICES table only", statics == EXPECTED_STATICS,
                "found %r" % statics)
